@@ -143,7 +143,8 @@ impl ExopParser for EndTxnResp {
                 } if id == Types::Sequence as u64 && class == TagClass::Universal => {
                     let mut ctrls = Vec::with_capacity(tags.len() / 2);
                     while !tags.is_empty() {
-                        let controls = parse_controls(tags.pop().expect("element"));
+                        let controls =
+                            parse_controls(tags.pop().expect("element")).expect("controls");
                         let msg_id = match parse_uint(
                             tags.pop()
                                 .expect("element")
